@@ -44,6 +44,7 @@ ASSUMPTIONS = ['near-limit family (compiled typeof only, ~1200 opcodes): Runtime
 BUDGET = {'quick': 4800, 'thorough': 400000}
 TIME = {'quick': 25, 'thorough': 1200}
 MAX_SHARDS = 12
+PRE_IN_PARENT = True      # pre() only launches the fuzzing campaigns, post() collects them
 CRASHY = True
 ASAN_TIERS = ('thorough',)
 # debug hooks of CPython's allocators: a write past a PyMem/PyObject block aborts at free time
